@@ -84,6 +84,9 @@ OdeConfigs ==
     \cup {[dims |-> [k \in 1..d |-> 2], op |-> "markov", rg |-> 2, cplx |-> FALSE, seed |-> seed, rx |-> MaxRanks([k \in 1..d |-> 2]),
            scheme |-> sch, m |-> 1, steps |-> st] :
           d \in 1..3, seed \in {1, 2}, sch \in {"explicit_euler", "implicit_euler", "trapezoidal_rule"}, st \in StepLists}
+    \* hod on Markov generators: the default normalisation of hod is the Manhattan norm (sum of the entries)
+    \cup {[dims |-> [k \in 1..d |-> 2], op |-> "markov", rg |-> 2, cplx |-> FALSE, seed |-> seed, rx |-> MaxRanks([k \in 1..d |-> 2]),
+           scheme |-> "hod", m |-> m, steps |-> st] : d \in 1..2, seed \in {1, 2}, m \in 1..2, st \in {<<7>>, <<7, 7, 7>>}}
 
 \* estimator cases: arbitrary integer lists of three states
 EstConfigs == {[est |-> TRUE, dims |-> dims, cplx |-> cplx, seed |-> seed, scheme |-> sch, e |-> e] :
